@@ -31,10 +31,29 @@ pub fn par_cases<F: Fn(u64) + Sync>(n: u64, workers: usize, f: F) {
                 if i >= n {
                     break;
                 }
-                f(i);
+                // A panic in harness code (an assumption of a check about the
+                // layout it attacks that the tree under test no longer meets)
+                // abandons that one case: it is counted, makes the run
+                // inconclusive unless a violation was found, and the per-thread
+                // hook state is reset so later cases on this worker are clean.
+                if std::panic::catch_unwind(std::panic::AssertUnwindSafe(|| f(i))).is_err() {
+                    HARNESS_PANICS.fetch_add(1, Ordering::Relaxed);
+                    #[cfg(feature = "plonk-std")]
+                    {
+                        dusk_plonk::verif::set_forged_witnesses(None);
+                        dusk_plonk::verif::set_force_prove(false);
+                    }
+                }
             });
         }
     });
+}
+
+static HARNESS_PANICS: AtomicU64 = AtomicU64::new(0);
+
+/// Number of cases abandoned because harness code panicked.
+pub fn harness_panics() -> u64 {
+    HARNESS_PANICS.load(Ordering::Relaxed)
 }
 
 pub fn hx(s: &BlsScalar) -> String {
